@@ -11,11 +11,11 @@ struct / tuple / unit variants, generic tagged enum, alias, generic alias); ever
  (c) the oracle = the property on the implementation's text: every referenced name that is not a builtin or a
      generic parameter must be a defined name.  The references that fail must be exactly those the `Known_*`
      predicates (re-implemented here, and cross-checked against the Lean ones) predict; anything else is a VIOLATION.
-     Since the `fix:` commits 821da1d / b182a80 / 03e02a1 the only per-reference class left is `Known_def_original`
+     Since the `fix:` commits 944b749 / 0c924cd / 3d3e1e7 the only per-reference class left is `Known_def_original`
      = a reference to a renamed *Go enum*; the witnesses of the repaired classes (generic head, Kotlin/Scala/Go alias
      definition, Kotlin/Scala parent class and helper struct) are replayed as regressions: they must pass the oracle,
      and are reported as a VIOLATION "has returned" if they do not.
-     Kotlin multi-file import lines (`kotlin-import-without-prefix`, repaired by abe0590): byte-exact against the model over all
+     Kotlin multi-file import lines (`kotlin-import-without-prefix`, repaired by 8dc01bf): byte-exact against the model over all
      prefixes, and every imported name must be defined by the other module's file (kotlin_import_part).
      Generic parameters: the field `v: T` of every generic struct must be printed with the type `T` (positional), and
      one program in ten has an item called `T` (the class Known_shadow).
@@ -185,7 +185,7 @@ def skeleton_program(kinds, renamed):
 def def_uses_original(lang, kind):
     """TsV.C09.defUsesOriginal"""
     k = "alias" if kind in ("alias", "galias") else "enum" if kind in ("unit", "tagged", "gtagged") else "struct"
-    return lang == "go" and k == "enum"      # (Kotlin / Scala / Go aliases: repaired by b182a80)
+    return lang == "go" and k == "enum"      # (Kotlin / Scala / Go aliases: repaired by 0c924cd)
 
 
 def leaves(t, out):
@@ -242,19 +242,19 @@ def predict(items, lang, pfx):
                         refs.add(name)
                     continue
                 t = by[name]
-                spelled = pfx + ren(t)       # plain leaves and (since 821da1d) generic heads alike
+                spelled = pfx + ren(t)       # plain leaves and (since 944b749) generic heads alike
                 refs.add(spelled)
                 if spelled != dname(t):
                     fail.setdefault(spelled, set()).add("def-original")
         if it["kind"] in ("tagged", "gtagged"):
             if lang != "typescript":
                 # TsV.C09.innerDefName = innerRefs: `<original>VaInner` in Go, `<renamed>VaInner` elsewhere (Kotlin / Scala
-                # referred to `<original>VaInner` before 03e02a1)
+                # referred to `<original>VaInner` before 3d3e1e7)
                 inner = pfx + (it["name"] if lang == "go" else ren(it)) + "VaInner"
                 defs.add(inner)
                 refs.add(inner)
             if lang in ("kotlin", "scala"):
-                refs.add(pfx + ren(it))      # TsV.C09.parentRefs: the parent class of the cases (`<original>` before 03e02a1)
+                refs.add(pfx + ren(it))      # TsV.C09.parentRefs: the parent class of the cases (`<original>` before 3d3e1e7)
         if it["kind"] == "unit" and lang == "scala":
             refs.add(ren(it))
     return defs, refs, fail
@@ -590,17 +590,17 @@ WITNESSES = [
 # the witnesses of the repaired classes: (fixed class, commit, language, prefix, source, name that was referred to /
 # defined by mistake, name that must now be both defined and referred to)
 REPAIRED = [
-    ("definition-under-original-name (aliases)", "b182a80", "kotlin", "", ALIAS, "Al", "AliasNew"),
-    ("definition-under-original-name (aliases)", "b182a80", "kotlin", "OP", ALIAS, "OPAl", "OPAliasNew"),
-    ("definition-under-original-name (aliases)", "b182a80", "scala", "", ALIAS, "Al", "AliasNew"),
-    ("definition-under-original-name (aliases)", "b182a80", "go", "", ALIAS, "Al", "AliasNew"),
-    ("parent-class-original-name", "03e02a1", "kotlin", "", ENUM, "En", "EnumNew"),
-    ("parent-class-original-name", "03e02a1", "kotlin", "OP", ENUM, "OPEn", "OPEnumNew"),
-    ("parent-class-original-name", "03e02a1", "scala", "", ENUM, "En", "EnumNew"),
-    ("inner-struct-original-name", "03e02a1", "kotlin", "", ENUM, "EnAInner", "EnumNewAInner"),
-    ("inner-struct-original-name", "03e02a1", "kotlin", "OP", ENUM, "OPEnAInner", "OPEnumNewAInner"),
-    ("inner-struct-original-name", "03e02a1", "scala", "", ENUM, "EnAInner", "EnumNewAInner"),
-] + [("generic-head-not-renamed", "821da1d", l, "", GEN, "Ge", "GenNew") for l in LANGS]
+    ("definition-under-original-name (aliases)", "0c924cd", "kotlin", "", ALIAS, "Al", "AliasNew"),
+    ("definition-under-original-name (aliases)", "0c924cd", "kotlin", "OP", ALIAS, "OPAl", "OPAliasNew"),
+    ("definition-under-original-name (aliases)", "0c924cd", "scala", "", ALIAS, "Al", "AliasNew"),
+    ("definition-under-original-name (aliases)", "0c924cd", "go", "", ALIAS, "Al", "AliasNew"),
+    ("parent-class-original-name", "3d3e1e7", "kotlin", "", ENUM, "En", "EnumNew"),
+    ("parent-class-original-name", "3d3e1e7", "kotlin", "OP", ENUM, "OPEn", "OPEnumNew"),
+    ("parent-class-original-name", "3d3e1e7", "scala", "", ENUM, "En", "EnumNew"),
+    ("inner-struct-original-name", "3d3e1e7", "kotlin", "", ENUM, "EnAInner", "EnumNewAInner"),
+    ("inner-struct-original-name", "3d3e1e7", "kotlin", "OP", ENUM, "OPEnAInner", "OPEnumNewAInner"),
+    ("inner-struct-original-name", "3d3e1e7", "scala", "", ENUM, "EnAInner", "EnumNewAInner"),
+] + [("generic-head-not-renamed", "944b749", l, "", GEN, "Ge", "GenNew") for l in LANGS]
 
 MULTI_A = "#[typeshare]\npub struct Foo { pub a: u8 }\n"
 MULTI_B = "use alpha::Foo;\n#[typeshare]\npub struct Bar { pub f: Foo }\n"
@@ -649,7 +649,7 @@ def replay_witnesses(check):
         if bad and not check.known(kid, {"lang": lang, "source": src, "refers_to": used, "defined_as": wanted}):
             check.violation("%s output refers to `%s` where `%s` is what is defined / meant (class %s not listed as known)"
                             % (lang, used, wanted, kid), case={"lang": lang, "source": src}, impl=a, failing_input=True)
-    # the repaired class kotlin-import-without-prefix (fix abe0590): the import line must name the class as alpha defines it
+    # the repaired class kotlin-import-without-prefix (fix 8dc01bf): the import line must name the class as alpha defines it
     a = ans[-1]
     check.count("repaired-witness-replayed")
     case = {"lang": "kotlin", "prefix": "OP", "alpha": MULTI_A, "beta": MULTI_B}
@@ -660,7 +660,7 @@ def replay_witnesses(check):
     else:
         alpha, beta = a["ok"].get("alpha", ""), a["ok"].get("beta", "")
         if "data class OPFoo" not in alpha or "import com.example.alpha.OPFoo\n" not in beta or "import com.example.alpha.Foo\n" in beta:
-            check.violation("the repaired class kotlin-import-without-prefix (fix abe0590) has returned: kotlin multi-file output of beta "
+            check.violation("the repaired class kotlin-import-without-prefix (fix 8dc01bf) has returned: kotlin multi-file output of beta "
                             "imports %s while alpha defines the class as `OPFoo`" % re.findall(r"^import com\.example\.alpha\.\S+", beta, re.M),
                             case=case, impl=a, failing_input=True)
 
@@ -713,7 +713,7 @@ def kotlin_import_part(check):
             bad = sorted(n for n in imported if n not in defs)
             if bad or len(imported) != len(used):
                 check.violation("kotlin multi-file output (prefix %r) of beta imports %s from alpha, which defines %s%s"
-                                % (pfx, imported, sorted(defs), " (the repaired class kotlin-import-without-prefix, fix abe0590, has returned)" if bad else ""),
+                                % (pfx, imported, sorted(defs), " (the repaired class kotlin-import-without-prefix, fix 8dc01bf, has returned)" if bad else ""),
                                 case=case, impl=ra, model=ma, failing_input=True)
                 return
         if ma != ra and mismatch is None and "ambiguous" not in ma:
